@@ -77,6 +77,12 @@ def _worker(crate, R, b):
     forwards to (`pub fn split_by(root, mut pred) { Self::split_by_ref(root, &mut pred) }`)"""
     if util.self_recursive(b):
         return b
+    # recursion through private one-level helpers (merge -> merge_into_right_spine -> merge): with the helpers
+    # inlined the function calls itself directly, it is its own worker
+    for bb, t in b.calls():
+        tgt = crate.by_key.get(util.callee_key(t))
+        if tgt is not None and not tgt.is_closure and tgt.vis != "pub" and not util.self_recursive(tgt) and any(util.callee_key(t2) == b.key for _bb2, t2 in tgt.calls()):
+            return b
     cands = []
     for bb, t in b.calls():
         tgt = crate.by_key.get(util.callee_key(t))
@@ -475,6 +481,16 @@ def _compositions(col, R, crate, sfx):
         nw = [e for e in evs if is_call_to(e, R.new)]
         stores = [e for e in evs if e.kind == "store" and e.place[0] == "field" and e.place[2] == 0]
         ok = len(sp) == 1 and len(mg) == 2 and len(nw) == 1
+        if not ok and not sp and not mg and len(nw) == 1 and stores:
+            # empty-tree fast path: split_at(None, _) = (None, None) and merge(None, x) = x, so the new node is the tree
+            rootpl = stores[-1].place
+            was_none = any(_known_none(st.facts, x) for x in (("load", ("m0",), rootpl),) + tuple(f_[1][1] for f_ in st.facts if isinstance(f_[1], tuple) and f_[1] and f_[1][0] == "discr" and isinstance(f_[1][1], tuple) and f_[1][1][0] == "load" and strip_mem(f_[1][1][2]) == strip_mem(rootpl)))
+            v = stores[-1].val
+            only_new = v[0] == "agg" and isinstance(v[1], tuple) and len(v[1]) > 3 and v[1][3] == "Some" and any(x == nw[0].res for x in subterms(v)) and nw[0].args[0] == ("param", 3, I.names.get(3))
+            key = "%s|composition" % fk(b)
+            if was_none and only_new:
+                col.ok("T6" + sfx, b.loc(), key + "|empty", "empty tree: the new node becomes the root (what split_at/merge of empty halves give)")
+                continue
         if ok:
             s = sp[0]
             left, right = ("proj", 0, s.res), ("proj", 1, s.res)
